@@ -4,9 +4,9 @@ CONSTANTS
   EncKeys = {"e1","e2"}
   Nonces = {"n1"}
   Tokens = {"t1"}
-  AppStates = {}
+  AppStates = {"s1"}
   NodeIds = {"N1"}
-  Enabled = {"Authorize","Remove","Nid","Prev","Rotate","Token"}
+  Enabled = {"Authorize","Remove","Nid","Prev","Rotate","Strip","Token"}
   MaxGen = 4
   CfgSW = FALSE
   CfgNidl = TRUE
